@@ -485,6 +485,7 @@ func runC06(c *core.Ctx) error {
 	}
 	checkUriSidesSymmetric(c, r7, prog7)
 	checkNameSpecialCasesOnBothSides(c, r7, prog7)
+	checkCursorLoopsAcceptTrailingEmpty(c, r7, prog7)
 	checkFreshVisitedSets(c, r7, prog7, pkgGen)
 	ex7, err := c.Expand(fixtureNames(c))
 	if err != nil {
